@@ -375,6 +375,20 @@ static int cmd_run (int argc, char **argv)
   return 0;
 }
 
+/* frombc <hex bytes>: rebuild a program from static bytecode (what a generated wrapper does on its first call) and print it as a recipe */
+static int cmd_frombc (int argc, char **argv)
+{
+  const char *h = argv[2];
+  size_t n = strlen (h) / 2, i;
+  orc_uint8 *bc = calloc (n + 64, 1);
+  OrcProgram *p;
+  for (i = 0; i < n; i++) bc[i] = (hexval (h[2 * i]) << 4) | hexval (h[2 * i + 1]);
+  p = orc_program_new_from_static_bytecode (bc);
+  if (!p) { printf ("null\n"); return 0; }
+  print_recipe (p);
+  return 0;
+}
+
 int main (int argc, char **argv)
 {
   if (argc < 2) return 2;
@@ -384,5 +398,6 @@ int main (int argc, char **argv)
   if (!strcmp (argv[1], "compile") && argc >= 4) return cmd_compile (argc, argv);
   if (!strcmp (argv[1], "parse") && argc >= 3) return cmd_parse (argc, argv);
   if (!strcmp (argv[1], "run") && argc >= 5) return cmd_run (argc, argv);
+  if (!strcmp (argv[1], "frombc") && argc >= 3) return cmd_frombc (argc, argv);
   return 2;
 }
